@@ -132,7 +132,7 @@ class MBoxFolderHandler(FolderHandler):
         """Figure out if this is a handleable request."""
         # Must be a real file
         if (
-            not isinstance(self.vfs, VFS_Real)
+            type(self.vfs) is not VFS_Real
             or self.selectorargs
             or not self.statresult
             or not stat.S_ISREG(self.statresult[stat.ST_MODE])
@@ -177,7 +177,7 @@ class MBoxMessageHandler(MessageHandler):
 
 class MaildirFolderHandler(FolderHandler):
     def canhandlerequest(self):
-        if not isinstance(self.vfs, VFS_Real):
+        if type(self.vfs) is not VFS_Real:
             return 0
         if self.selectorargs:
             return 0
